@@ -1376,7 +1376,7 @@ static Plan gen_mpi(Rng& r, int tier, std::string const& focus)
         p.rorder = 0;
         p.target = 0;
     }
-    if (r.chance((focus == "C06") ? 0.004 : tier ? 0.0015 : 0.0008))
+    if (r.chance((focus == "C06") ? 0.008 : tier ? 0.0015 : 0.0008))
     {
         // volume run: more calls than a float can count (2^24), in the thorough tier rarely more than
         // an int can count (2^31); no call logs, counters and tiling from the cheap statistics
@@ -1404,7 +1404,7 @@ static Plan gen_mpi(Rng& r, int tier, std::string const& focus)
             Fault f;
             f.kind = FLT_POISON_HASH;
             f.c = POISON_NAN;
-            f.v = 1 + r.below(256);   // density in 1/2^32: about 2^24 * v / 2^32 of the points
+            f.v = 256 + r.below(4096);   // density in 1/2^32: about 2^24 * v / 2^32 of the points (1 .. 17)
             p.faults.push_back(f);
         }
     }
